@@ -508,7 +508,9 @@ def _create_params(parent, argslist_list):
     if first.type in ('name', 'fpdef'):
         return [Param([first], parent)]
     elif first == '*':
-        return [first]
+        # Either a single bare star or a list that has been converted already
+        # and contains no parameter (e.g. ``(*,)``): there is nothing to do.
+        return list(argslist_list)
     else:  # argslist is a `typedargslist` or a `varargslist`.
         if first.type == 'tfpdef':
             children = [first]
